@@ -311,7 +311,8 @@ unsafe fn conn_recv(fd: c_int, buf: *mut c_void, len: size_t, flags: c_int) -> s
     if r > 0 {
         let c = &mut w.conns[conn];
         c.consumed += r as u64;
-        c.recvs.push(RecvRec { upto: c.consumed, mono: w.mono });
+        w.evseq += 1;
+        c.recvs.push(RecvRec { upto: c.consumed, mono: w.mono, seq: w.evseq });
         w.n_recv += 1;
         world::log_event(&format!("recv c{} {}", conn, r));
     } else if r == 0 {
